@@ -309,3 +309,11 @@ impl PieceType for Queen {
         (chess_lookup::rook_moves(src, combined) | chess_lookup::bishop_moves(src, combined)) & mask
     }
 }
+
+#[cfg(rustyyato_chess_verif)]
+impl Board {
+    /// verification hook: the private attacked-square test
+    pub fn verif_is_legal_king_position(&self, king_pos: Pos) -> bool {
+        self.is_legal_king_position(king_pos)
+    }
+}
